@@ -67,10 +67,10 @@ def analyse(prop, repo, tier='quick'):
             if not ok:
                 n_memo += 1
             ctx.ob('memo-key', fi0, node, ok, msg, construct='decorator of %s: %s' % (qual, U(node)[:60]))
-    if err is not None and not n_memo:
+    if err is not None and not n_memo and not ctx.violations():
         raise err
     if err is not None:
-        ctx.note('analysis stopped early (%s); the memo-key finding above is reported on its own' % err)
+        ctx.note('analysis stopped early (%s); the finding(s) established before that are reported on their own' % err)
     return ctx
 
 
